@@ -346,6 +346,30 @@ def run(facts, res):
                         for c_ in walk(l.term):
                             if c_[0] == "call" and c_[3] in blocks and c_[3] in site_at:
                                 aborts |= reached(site_at[c_[3]])
+        if not found:
+            # pipeline form (`listing.iter().filter_map(parse)...for_each(insert)`): the per-item steps run in the closures of one
+            # adaptor chain; a `for_each` pipeline cannot abort the operation, a `try_for_each` / collect-into-Result one can
+            for s_ in cg.sites[body.path]:
+                if s_.callee is None or s_.callee.name not in ("for_each", "try_for_each", "collect", "try_fold") or not s_.term.args:
+                    continue
+                chain_closures = []
+                for x in walk(arg_term(body, s_.term, 0, 40)):
+                    if x[0] == "closure":
+                        cb_ = facts.body(x[1])
+                        if cb_ is not None:
+                            chain_closures.append(cb_)
+                chain_closures += list(s_.closures)
+                hit = set()
+                for cb_ in chain_closures:
+                    for cs_ in cg.sites[cb_.path]:
+                        hit |= reached(cs_)
+                    for c2 in facts.closures_of(cb_.path):
+                        for cs_ in cg.sites[c2.path]:
+                            hit |= reached(cs_)
+                if hit:
+                    found = True
+                    if s_.callee.name != "for_each":
+                        aborts |= hit
         return aborts if found else None
     groups = [("block listing", [facts.body(n) for n in ("melda::Melda::reload", "melda::Melda::refresh", "melda::Melda::reload_until")],
                {"melda::DeltaId::from", R.path("fetcher"), R.path("loader")}),
